@@ -257,7 +257,7 @@ PROPS = {
                        'None, in an arbitrary key order; the other side\'s store is emptied). lemma_inner_history proves over the abstract machine defined by these two relations that for EVERY '
                        'interleaving of the two sides and of their end markers the matched pairs emitted under each key are exactly the relational join (each pair once). '
                        'JoinLocalHash::next is under contract too (dispatch with the flags of the variant, asserts at FlushAndRestart). Sort-merge join: soundness of the merge loop and the iteration protocol around it (unit sort_merge); '
-                       'NOT decided: the exact multiset of None-padded tuples over a whole history, completeness of the sort-merge merge loop, keyed-stream join, interval join, ship strategies (same key hash on both sides).',
+                       'NOT decided: the exact multiset of None-padded tuples over a whole history, completeness of the sort-merge merge loop and of the interval join, the left / outer keyed-stream joins (JoinKeyedOuter), ship strategies (same key hash on both sides).',
         'assumptions': ['HashMap/HashSet by their map/set views; drain order arbitrary', 'JoinLocalSortMerge / IntervalJoin: completeness (every same-key pair / every pair inside the interval / every unmatched outer element emitted) is not decided; JoinKeyedOuter (left / outer keyed-stream joins), ship.rs: not under contract', 'correspondence between the add_item/side_ended contracts and the abstract machine js_step/js_out: same clauses (refinement lemmas for the emitted tuples; the stored-state clauses are syntactically the same expressions)'],
     },
 }
